@@ -19,7 +19,7 @@ type WalkConfig struct {
 	// MaxLevel caps the trie depth per family (0 = no cap): level 0 are the roots.
 	MaxLevel map[string]int
 	// Keep selects the accepted programs that are handed to the batches (nil = all).
-	Keep func(p *interp.Prog) bool
+	Keep func(family string, p *interp.Prog) bool
 	// Stop is polled between levels and batches.
 	Stop func() bool
 	// Extra holds families that are not progen's (hand-written programs in
@@ -172,7 +172,7 @@ func Walk(cfg WalkConfig, handle func(worker int, progs []*ProgInfo)) *WalkStats
 				fc.Accepted++
 				ws.mu.Unlock()
 				accepted[i] = true
-				kept[i] = cfg.Keep == nil || cfg.Keep(p)
+				kept[i] = cfg.Keep == nil || cfg.Keep(name, p)
 			})
 			ws.mu.Lock()
 			ws.fam(name).Levels = int64(depth + 1)
